@@ -151,7 +151,7 @@ func HostileSweep(run *ev.Run, backend string) {
 				{K: "insert", Coll: coll, Docs: []m.Doc{{"_id": ID(1)}, {"_id": ID(1)}}}, {K: "insert", Coll: coll, Docs: []m.Doc{{"_expiresAt": int64(5)}}},
 				{K: "save", Coll: coll, Docs: []m.Doc{{"x": int64(1)}}}, {K: "save", Coll: coll, Docs: []m.Doc{{"_id": ID(77)}}}, {K: "save", Coll: coll, Docs: []m.Doc{{"_id": int64(1)}}},
 				{K: "replaceById", Coll: coll, Id: ID(1), Docs: []m.Doc{{"_id": ID(1)}}}, {K: "replaceById", Coll: coll, Id: "", Docs: []m.Doc{{}}}, {K: "replaceById", Coll: coll, Id: ID(99), Docs: []m.Doc{{"_id": ID(99)}}},
-				{K: "updateById", Coll: coll, Id: ID(1), Upd: &m.Updater{Set: map[string]interface{}{"_id": nil}, Style: "inplace"}}, {K: "updateById", Coll: coll, Id: "garbage", Upd: &m.Updater{Style: "copy"}},
+				{K: "updateById", Coll: coll, Id: ID(1), Upd: &m.Updater{Set: map[string]interface{}{"_id": nil}, Style: "inplace"}}, {K: "updateById", Coll: coll, Id: "garbage", Upd: &m.Updater{Style: "copy"}}, {K: "updateById", Coll: coll, Id: ID(1), Upd: &m.Updater{Nil: true}},
 				{K: "deleteById", Coll: coll, Id: ID(1)}, {K: "deleteById", Coll: coll, Id: ""}, {K: "deleteById", Coll: coll, Id: "x;y"},
 				{K: "findById", Coll: coll, Id: ID(1)}, {K: "findById", Coll: coll, Id: ""}, {K: "findById", Coll: coll, Id: "not-a-uuid"},
 				{K: "export", Coll: coll, Text: tmp}, {K: "export", Coll: coll, Text: "/nonexistent-dir/x.json"}, {K: "import", Coll: coll, Text: imp}, {K: "import", Coll: "fresh", Text: imp}, {K: "import", Coll: "fresh2", Text: "/nonexistent"},
@@ -323,22 +323,31 @@ func APISweep(run *ev.Run) {
 // KindLiteralSweep: IterateDocs (exported, does not go through FindAll's normalisation) with criteria whose
 // literals are plain Go ints etc.
 func KindLiteralSweep(run *ev.Run, backend string) {
-	in := drv.MustOpen(backend)
-	defer in.Close()
-	drv.Exec(in, m.Op{K: "createColl", Coll: "a"})
-	drv.Exec(in, m.Op{K: "insert", Coll: "a", Docs: DefaultDataset()})
-	for _, kind := range drv.NumericKinds {
-		for _, op := range []string{"eq", "neq", "gt", "lte"} {
-			c := m.Leaf(op, "x", int64(1))
-			c.Kind = kind
-			o := m.Op{K: "iterateDocs", Q: &m.Q{Coll: "a", Crit: c}}
-			r := drv.Exec(in, o)
-			run.Add("evaluations", 1)
-			run.Distinct("calls", "iterateDocs/"+kind+"/"+op)
-			if r.Panic != nil {
-				run.Violation(fmt.Sprintf("panic|%s|iterateDocs|literal-%s", backend, kind), fmt.Sprintf("[%s] IterateDocs with criteria x %s %s(1) panicked: %v", backend, op, kind, r.Panic), map[string]interface{}{"engine": "hostile", "op": o})
-			}
-			in.V.ForgetLeaks()
+	for _, indexed := range []bool{false, true} {
+		in := drv.MustOpen(backend)
+		drv.Exec(in, m.Op{K: "createColl", Coll: "a"})
+		if indexed {
+			// with an index on the field the un-normalised literal also reaches the planner and the index range encoder
+			drv.Exec(in, m.Op{K: "createIndex", Coll: "a", Field: "x"})
 		}
+		drv.Exec(in, m.Op{K: "insert", Coll: "a", Docs: DefaultDataset()})
+		for _, kind := range drv.NumericKinds {
+			for _, op := range []string{"eq", "neq", "gt", "gte", "lt", "lte", "in"} {
+				c := m.Leaf(op, "x", int64(1))
+				if op == "in" {
+					c = &m.Crit{Op: "in", Field: "x", Vals: []interface{}{int64(1), int64(2)}}
+				}
+				c.Kind = kind
+				o := m.Op{K: "iterateDocs", Q: &m.Q{Coll: "a", Crit: c}}
+				r := drv.Exec(in, o)
+				run.Add("evaluations", 1)
+				run.Distinct("calls", fmt.Sprintf("iterateDocs/%s/%s/indexed=%v", kind, op, indexed))
+				if r.Panic != nil {
+					run.Violation(fmt.Sprintf("panic|%s|iterateDocs|literal-%s", backend, kind), fmt.Sprintf("[%s] IterateDocs with criteria x %s %s(1) (index on x: %v) panicked: %v", backend, op, kind, indexed, r.Panic), map[string]interface{}{"engine": "hostile", "op": o, "indexed": indexed})
+				}
+				in.V.ForgetLeaks()
+			}
+		}
+		in.Close()
 	}
 }
